@@ -349,6 +349,28 @@ def generate():
     I("c12_acl_uid", int(mm.group(1)) if mm else 65535, f)
     I("c12_acl_gid", int(mm.group(2)) if mm else 65535, f)
 
+    # ---- failed-authorization summary key (C11): separator and field order of ProxySummary::to_key_string ----
+    # TOLERANT: sentinel 256 / empty order when the format is not "fields joined by one single-byte separator",
+    # so that the C11 proofs break and the check goes on to look for a failing input.
+    f = "proxy_agent/src/proxy/proxy_summary.rs"
+    ks = strip_comments(src(f))
+    mm = re.search(r"pub fn to_key_string\b.*?format!\(\s*\"((?:[^\"\\]|\\.)*)\"\s*,(.*?)\)\s*\n\s*\}", ks, flags=re.S)
+    key_sep, key_order = 256, ""
+    if mm:
+        fmt = mm.group(1)
+        fmt = re.sub(r"\\u\{([0-9a-fA-F]+)\}", lambda x: chr(int(x.group(1), 16)), fmt)
+        fmt = fmt.replace("\\0", "\0").replace("\\t", "\t").replace("\\n", "\n").replace('\\"', '"').replace("\\\\", "\\")
+        pieces = fmt.split("{}")
+        args = [re.sub(r"\s+", "", a) for a in mm.group(2).split(",") if a.strip()]
+        names = {"self.userName": "u", "self.clientIp": "c", "self.ip": "i", "self.port": "p",
+                 "self.processFullPath.to_string_lossy()": "x", "self.processCmdLine": "l", "self.responseStatus": "s"}
+        if (len(pieces) == len(args) + 1 and len(args) >= 2 and pieces[0] == "" and pieces[-1] == ""
+                and len(set(pieces[1:-1])) == 1 and len(pieces[1]) == 1 and ord(pieces[1]) < 256
+                and all(a in names for a in args)):
+            key_sep, key_order = ord(pieces[1]), "".join(names[a] for a in args)
+    I("summary_key_sep", key_sep, f)
+    S("summary_key_fields", key_order, f)
+
     lines = []
     lines.append("(* GENERATED by tools/gen_consts.py from /repo's current sources -- do not edit. *)")
     lines.append("From Coq Require Import List NArith.")
